@@ -1224,4 +1224,79 @@ Section ValidateP.
       intro H. destruct (IH H) as (q & Hq & He). exists q. split; [right; exact Hq|exact He].
     - intro H. inversion H; subst e'. exists p. split; [left; reflexivity|exact Hm].
   Qed.
+
+  (* a typedef chain compiles to the patterns of all its levels in order, each with its own flag *)
+  Lemma chain_patterns_flat levels : forall base,
+    chain_patterns code base levels
+    = base ++ map (fun q => {| pat_code := snd q; pat_inverted := fst q |}) (concat levels).
+  Proof.
+    induction levels as [|l ls IH]; intro base; cbn [chain_patterns concat map].
+    - rewrite app_nil_r. reflexivity.
+    - rewrite IH. unfold compile_type_patterns. rewrite map_app, app_assoc. reflexivity.
+  Qed.
+
+  Lemma validate_chain levels s :
+    (forall q, In q (concat levels) -> is_ok (code_match (snd q) s) = true) ->
+    validate_patterns code code_match (chain_patterns code [] levels) s
+    = Ok (forallb (fun q => match code_match (snd q) s with
+                            | Ok m => xorb m (fst q)
+                            | Err _ => false
+                            end) (concat levels)).
+  Proof.
+    intro Hok. rewrite chain_patterns_flat. cbn [app]. rewrite validate_patterns_spec.
+    - f_equal. clear Hok. generalize (concat levels). intro l.
+      induction l as [|q l IH]; [reflexivity|].
+      cbn [map forallb]. rewrite IH. unfold pat_sat. cbn [pat_code pat_inverted]. reflexivity.
+    - intros p Hp. apply in_map_iff in Hp. destruct Hp as (q & <- & Hq). cbn [pat_code]. apply Hok. exact Hq.
+  Qed.
+
+  (* ---- string types over a typedef chain: (optional length, patterns) per level ------------------ *)
+  (* the effective length: the statement of the last level that has one *)
+  Fixpoint last_length (cur : option length_restr) (levels : list (option length_restr * list (bool * code))) : option length_restr :=
+    match levels with
+    | [] => cur
+    | l :: ls => last_length (match fst l with Some r => Some r | None => cur end) ls
+    end.
+
+  Lemma chain_type_flat levels : forall base,
+    st_patterns code (chain_type code base levels)
+    = st_patterns code base ++ map (fun q => {| pat_code := snd q; pat_inverted := fst q |}) (concat (map snd levels))
+    /\ st_length code (chain_type code base levels) = last_length (st_length code base) levels.
+  Proof.
+    induction levels as [|l ls IH]; intro base; cbn [chain_type map concat last_length].
+    - rewrite app_nil_r. split; reflexivity.
+    - destruct (IH (compile_string_type code base l)) as [IHp IHl]. rewrite IHp, IHl.
+      unfold compile_string_type. cbn [st_patterns st_length]. split; [|reflexivity].
+      destruct (snd l) as [|q ps] eqn:E.
+      + reflexivity.
+      + unfold compile_type_patterns. rewrite map_app, app_assoc. reflexivity.
+  Qed.
+
+  Lemma validate_string_chain levels n s :
+    (forall q, In q (concat (map snd levels)) -> is_ok (code_match (snd q) s) = true) ->
+    validate_string code code_match (chain_type code (string_builtin code) levels) n s
+    = Ok ((match last_length None levels with Some r => in_length r n | None => true end) &&
+          forallb (fun q => match code_match (snd q) s with
+                            | Ok m => xorb m (fst q)
+                            | Err _ => false
+                            end) (concat (map snd levels))).
+  Proof.
+    intro Hok. unfold validate_string.
+    destruct (chain_type_flat levels (string_builtin code)) as [Hp Hl]. cbn [string_builtin st_patterns st_length app] in Hp, Hl.
+    rewrite Hp, Hl.
+    assert (V : validate_patterns code code_match
+                  (map (fun q => {| pat_code := snd q; pat_inverted := fst q |}) (concat (map snd levels))) s
+                = Ok (forallb (fun q => match code_match (snd q) s with
+                                        | Ok m => xorb m (fst q)
+                                        | Err _ => false
+                                        end) (concat (map snd levels)))).
+    { rewrite validate_patterns_spec.
+      - f_equal. clear Hok Hp Hl. generalize (concat (map snd levels)). intro l.
+        induction l as [|q l IH]; [reflexivity|].
+        cbn [map forallb]. rewrite IH. unfold pat_sat. cbn [pat_code pat_inverted]. reflexivity.
+      - intros p Hin. apply in_map_iff in Hin. destruct Hin as (q & <- & Hq). cbn [pat_code]. apply Hok. exact Hq. }
+    destruct (last_length None levels) as [r|].
+    - destruct (in_length r n); [rewrite V; reflexivity|reflexivity].
+    - rewrite V. reflexivity.
+  Qed.
 End ValidateP.
